@@ -5,6 +5,7 @@ import (
 	"context"
 	"fmt"
 	"net"
+	"os"
 	"testing"
 	"testing/synctest"
 	"time"
@@ -22,7 +23,7 @@ type scenario struct {
 	Off    string        `json:"offset"`     // start | middle | last
 	Extra  int           `json:"extra"`      // request size variation
 	Dest   int           `json:"dest"`
-	CtxDL  bool          `json:"ctx_deadline"` // the caller's context carries a far-away deadline
+	CtxDL  bool          `json:"ctx_deadline"`    // the caller's context carries a far-away deadline
 	CtxAt  time.Duration `json:"ctx_deadline_at"` // >0: the caller's context deadline expires at this instant (mid-try)
 }
 
@@ -40,12 +41,12 @@ func fam(name string) cli.Family {
 }
 
 type result struct {
-	writes  []sconn.Write
-	retAt   time.Duration
-	err     error
-	resp    cli.Resp
-	gotMsg  bool
-	later   int // writes observed after the call returned
+	writes   []sconn.Write
+	retAt    time.Duration
+	err      error
+	resp     cli.Resp
+	gotMsg   bool
+	later    int // writes observed after the call returned
 	returned bool
 }
 
@@ -131,6 +132,7 @@ func run(t *testing.T, sc scenario, want []byte, xid uint32) (res result) {
 }
 
 func judge(r *mon.Rec, t *testing.T, sc scenario) {
+	r.Current(sc)
 	r.Eval(1)
 	f := fam(sc.Fam)
 	xid := uint32(0x00a1b2c3)
@@ -278,6 +280,9 @@ func grid(quick bool) []scenario {
 func TestCheck(t *testing.T) {
 	r := mon.New("C12")
 	defer r.Flush()
+	if os.Getenv("VERIF_REPLAY") == "" {
+		r.Watchdog(60 * time.Second)
+	}
 	var sc scenario
 	if mon.ReplayCase(&sc) {
 		judge(r, t, sc)
